@@ -32,6 +32,10 @@ def _gen(name, corr_is_property, extra_assumptions=()):
                 assumptions=["the model Codec.v transcribes src/codec.rs, src/compact.rs, src/bit_vec.rs and the derive expansion; agreement with the working tree is sampled on every run (registry of ~190 concrete types, seeded boundary-biased values and mutated byte strings); the theorems about the model are unbounded"] + list(extra_assumptions))
 
 PROPS.update({
+    "C13": dict(harness="c13", model_fn="c13_model", corr_is_property=False, harness_timeout=1200,
+        corr_name="CorrC13.c13_check: Mel.mel / cel / CodecMore.fixed_size vs MaxEncodedLen::max_encoded_len(), ConstEncodedLen, Decode::encoded_fixed_size() of every registry type",
+        trusted_base=["the reported constants are observed from the implementation on every run (tables by observation), the theorems are about the formulas; a type whose reported constant differs from the model's formula is no longer covered by the soundness theorem"] ,
+        assumptions=["the formulas in Mel.v transcribe src/max_encoded_len.rs, src/const_encoded_len.rs and the derive; the derive formula is the repaired one (fields in their selected representation)"]),
     "C15": dict(harness="c15", model_fn="c15_model", corr_is_property=True, harness_timeout=1200,
         corr_name="CorrC15.c15_check: Append.append vs <Vec<T>/VecDeque<T> as EncodeAppend>::append_or_new",
         trusted_base=["modelled, not verified: ExactSizeIterator::len of the item iterator is the item count n (a usize); the items' encodings concatenate to p (each item is encoded by its own Encode impl - C01); Vec::copy_from_slice panics on a length mismatch (modelled as APanic, proved unreachable)"],
@@ -45,4 +49,6 @@ PROPS.update({
     "C12": _gen("c12", False),
     "C14": _gen("c14", False),
     "C19": _gen("c19", False),
+    "C18": _gen("c18", False),
+    "C16": dict(_gen("c16", False), pre=__import__("c16_inventory").hook),
 })
